@@ -391,6 +391,12 @@ func C10_TokenKinds() {
 		{"if", terminal.Word("w", "if", 1)},
 		{"abc", terminal.Regexp("r", "ID", "identifier", `[a-z]+`, 0)},
 		{"a", terminal.Rune('a')},
+		// literals with multi-byte characters: positions are byte offsets
+		{"\u2264", terminal.Op("\u2264")},
+		{"\u00e9", terminal.Rune('\u00e9')},
+		{"\"\u00e9\"", terminal.String("s", true)},
+		{"'\u20ac'", terminal.Char("c")},
+		{"\u00e9t\u00e9", terminal.Regexp("r", "ID", "identifier", `[a-z\x{e9}]+`, 0)},
 	}
 	k := kinds[rt.Choose("kind", len(kinds))]
 	rt.Note(k.lit)
